@@ -81,9 +81,18 @@ func (c *mctx) cancel(err error) {
 	mc.RaceRelease(unsafe.Pointer(c))
 	mc.MarkClosed(c.done)
 	for _, ch := range c.children {
+		if ch.err == nil && ch.cause == nil {
+			ch.cause = c.cause // context.Cause of a child is the cause its parent was cancelled with
+		}
 		ch.cancel(err)
 	}
 }
+
+// WithCause is an error value for harness use: cancelling through WithCancelErr with it ends the context
+// like context.WithCancelCause's cancel(Cause) does: Err() is context.Canceled, context.Cause is Cause.
+type WithCause struct{ Cause error }
+
+func (w WithCause) Error() string { return "canceled with cause: " + w.Cause.Error() }
 
 func WithCancel(parent context.Context) (context.Context, context.CancelFunc) {
 	c := newCtx(parent)
@@ -104,6 +113,12 @@ func WithCancelErr(parent context.Context) (context.Context, func(error)) {
 			return
 		}
 		mc.YieldObjs("ctx.cancel", c.tree())
+		if wc, ok := err.(WithCause); ok {
+			if c.err == nil {
+				c.cause = wc.Cause
+			}
+			err = context.Canceled
+		}
 		c.cancel(err)
 	}
 }
